@@ -30,7 +30,7 @@ CHECKS = {
    note="Trusted: in-harness reference HPACK + x/net Framer/decoder as the peer; fasthttp containers; hook counters (add no synchronisation) for quiescence.",
    ref="6.2 C01"),
  "C20": dict(technique="grammar-based property testing (rapid) against an executable RFC 7540 8.1.2 well-formedness predicate, on a served connection with neighbours",
-   text="Header lists are generated from a grammar (well-formed base + catalogue of single and double rule violations, about half well-formed) and placed among other requests; the handler must run iff the predicate holds, otherwise that stream alone is refused with RST_STREAM(PROTOCOL_ERROR) or a 4xx while neighbours and HPACK state stay intact. Server half only so far (client half: see not yet built lanes in DESIGN). Exploration only.",
+   text="Header lists are generated from a grammar (well-formed base + catalogue of single and double rule violations, about half well-formed) and placed among other requests; the handler must run iff the predicate holds, otherwise that stream alone is refused with RST_STREAM(PROTOCOL_ERROR) or a 4xx while neighbours and HPACK state stay intact. The client lane does the same for response header lists (single valid :status first, lower-case, no connection-specific fields, numeric content-length) through RoundTrip against the scripted TLS server, with neighbour requests before and after sharing HPACK entries. Exploration only.",
    note="Trusted: the predicate of DESIGN appendix B (derived from the RFC text), the scripted peer; CONNECT and out-of-grammar characters excluded as the property says.",
    ref="6.2 C20"),
  "C08": dict(technique="model-based property testing (rapid): RFC 7540 5.1/6 reaction model (set of allowed reactions per state x frame) followed along generated frame sequences, lock-step via hook-counter quiescence",
